@@ -672,6 +672,11 @@ func c32Batches(t *c32Tree, devAllowed bool, maxBatch int) []verifmc.Op {
 	if devAllowed {
 		for _, d := range t.deviatedSpecs() {
 			ops = append(ops, c32MkOp(d))
+			if d.dev.kind != "glue" && d.dev.kind != "empty" && d.dev.kind != "incomplete" {
+				dd := d
+				dd.desc = true // the same deviated blocks delivered in answer to a descending request (single response)
+				ops = append(ops, c32MkOp(dd))
+			}
 			for _, h := range honest {
 				if h.desc {
 					continue // a deviated response is combined with ascending honest ones only
@@ -694,7 +699,7 @@ func TestVerif_C32(t *testing.T) {
 	}
 	r.Rule = fmt.Sprintf("for every rooted tree shape with the given number of nodes (genesis = finalised root) and every (nodes, depth, batch) in %v: BFS over histories of <= depth Process calls on a fresh "+
 		"FullSyncStrategy with the real blockImporter; one call = a batch of 1..batch responses; response alphabet = every contiguous segment of every "+
-		"root-to-leaf path as ascending or descending response, plus (at most one per history, alone or paired with an ascending honest response in either order) "+
+		"root-to-leaf path as ascending or descending response, plus (at most one per history: alone as ascending or descending response, or ascending and paired with an ascending honest response in either order) "+
 		"every deviation-1 response: forged stated Hash (garbage / any other block's hash) at any position, re-linked parent, number +-1, missing header, "+
 		"missing body, glued uncle+child pair, empty response, uncompleted task; states merged on (known headers, parked fragments incl. stated/real hashes, incomplete blocks, request queue, deviation used)", runs)
 	totalShapes := 0
